@@ -2,22 +2,19 @@
 # Run one property check against a scratch copy (git worktree) of /repo instead of /repo itself.
 #   tools/mutant_run.sh <worktree-dir> <Cxx> [quick|thorough] [extra args...]
 # Builds a path-rewritten copy of the harness under <worktree-dir>/.verif-harness with its own
-# target dir (<worktree-dir>/.verif-target) and runs the property binary with VERIF_ROOT pointing
-# at <worktree-dir>/.verif-out (evidence/replays land there, known_findings.json is copied).
-# Nothing under /repo or /verif is modified.  Exit status = the check's exit status.
-set -euo pipefail
-WT=$(readlink -f "$1"); PROP=$(echo "$2" | tr a-z A-Z); PKG=$(echo "$2" | tr A-Z a-z); TIER=${3:-quick}
+# target dir (<worktree-dir>/.verif-target, kept between runs so rebuilds are incremental) and runs
+# /verif/check on it with evidence/replays redirected to <worktree-dir>/.verif-out
+# (known_findings.json is copied there).  Nothing under /repo or /verif is modified.
+# Exit status = the check's exit status (0 held / 1 VIOLATION / 2 machinery).
+set -uo pipefail
+WT=$(readlink -f "$1"); PROP=$(echo "$2" | tr a-z A-Z); TIER=${3:-quick}
 shift; shift; [ $# -gt 0 ] && shift || true
 H="$WT/.verif-harness"; OUT="$WT/.verif-out"
-rm -rf "$H"; mkdir -p "$H" "$OUT"
-rsync -a --exclude target /verif/harness/ "$H/"
-# rewrite repo paths and target dir
+mkdir -p "$H" "$OUT"
+rsync -a --delete --exclude target /verif/harness/ "$H/"
 find "$H" -name Cargo.toml -o -name config.toml | xargs sed -i "s#/repo/#$WT/#g; s#/verif/target#$WT/.verif-target#g"
 cp /verif/known_findings.json "$OUT/" 2>/dev/null || true
-cd "$H/props/$PKG"
-env -u RUSTFLAGS CARGO_NET_OFFLINE=true cargo build --offline --profile verif --quiet
-set +e
-VERIF_ROOT="$OUT" VERIF_TIER="$TIER" VERIF_BUILD=main "$WT/.verif-target/verif/$PKG" --tier "$TIER" "$@"
+VERIF_HARNESS="$H" VERIF_TARGET="$WT/.verif-target" VERIF_OUT="$OUT" /verif/check "$PROP" --tier "$TIER" "$@"
 code=$?
 echo "[mutant_run] $PROP tier=$TIER exit=$code (evidence: $OUT/evidence/$PROP.json)"
 exit $code
